@@ -191,7 +191,7 @@ def replay(data):
 
 TB = [
     "Coq 8.16.1 kernel + coqc; vm_compute for the correspondence",
-    "axioms: stdlib Reals (ClassicalDedekindReals.sig_forall_dec, sig_not_dec, FunctionalExtensionality.functional_extensionality_dep) "
+    "axioms: stdlib Reals (ClassicalDedekindReals.sig_forall_dec, sig_not_dec, FunctionalExtensionality.functional_extensionality_dep; coqchk -o also lists Classical_Prop.classic, declared by the loaded Reals library) "
     "as printed by Print Assumptions for the theorems over R; the executable twin over Z/Q is axiom-free",
     "structural anchors (translate.py facts) for backend.ncc / zncc, BaseAlignmentModel.score, ncc_landscape_no_pad response formula, "
     "zncc_landscape_with_crop, fsc",
